@@ -7,19 +7,24 @@ Definition case := rcase.
 Definition sclass_eqb (a b : sclass) : bool :=
   match a, b with COk, COk | CRevoked, CRevoked | CUnknownStatus, CUnknownStatus | CError, CError => true | _, _ => false end.
 
+(* the clauses, as a function of the world, the responder list and the leaf's result *)
+Definition c04_spec (w : world) (st : Z) (urls : list Z) (r : rres) : Z :=
+  let sc := server_check (w_ocsp w) (w_now w) st in
+  let first := find (fun u => decisive (sc u)) urls in
+  (* OK without any responder having given an authentic current Good answer *)
+  if rres_eqb r ROK && negb (existsb (fun u => sclass_eqb (sc u) COk) urls) then 1
+  (* the first decisive answer says Revoked but the result is not Revoked *)
+  else if match first with Some u => sclass_eqb (sc u) CRevoked | None => false end && negb (rres_eqb r RRevoked) then 2
+  (* OK although the first decisive answer was not the Good one *)
+  else if rres_eqb r ROK && negb (match first with Some u => sclass_eqb (sc u) COk | None => false end) then 3
+  else 0.
+
 Definition check_case (c : rcase) : verdict :=
   if r_panicked c then (r_id c, 2, 9) else
   match r_chain c, leaf_result (r_impl c) with
   | leaf :: _, Some r =>
-      let w := case_world c in
-      let sc := server_check (w_ocsp w) (w_now w) (r_st c) in
-      let first := find (fun u => decisive (sc u)) (c_ocsp leaf) in
-      (* OK without any responder having given an authentic current Good answer *)
-      if rres_eqb r ROK && negb (existsb (fun u => sclass_eqb (sc u) COk) (c_ocsp leaf)) then (r_id c, 2, 1)
-      (* the first decisive answer says Revoked but the result is not Revoked *)
-      else if match first with Some u => sclass_eqb (sc u) CRevoked | None => false end && negb (rres_eqb r RRevoked) then (r_id c, 2, 2)
-      (* OK although the first decisive answer was not the Good one *)
-      else if rres_eqb r ROK && negb (match first with Some u => sclass_eqb (sc u) COk | None => false end) then (r_id c, 2, 3)
+      let k := c04_spec (case_world c) (r_st c) (c_ocsp leaf) r in
+      if negb (k =? 0) then (r_id c, 2, k)
       else if agrees c then (r_id c, 0, 0) else (r_id c, 1, 0)
   | _, _ => if agrees c then (r_id c, 0, 0) else (r_id c, 1, 0)
   end.
